@@ -6,7 +6,7 @@ cd /repo && git diff --quiet || { echo "repo dirty"; exit 9; }
 cd /verif
 for d in seeded/*/; do
   name=$(basename $d); prop=${name%%_*}
-  git -C /repo apply "$d/patch.diff" 2>/dev/null || { echo "$name PATCH-DOES-NOT-APPLY"; continue; }
+  git -C /repo apply "/verif/$d/patch.diff" 2>/dev/null || { echo "$name PATCH-DOES-NOT-APPLY"; continue; }
   out=$(./check $prop quick 2>&1); rc=$?
   git -C /repo checkout -- .
   if echo "$out" | grep -q "^VIOLATION"; then echo "$name CAUGHT $(echo "$out" | grep -m1 signature | cut -c1-120)"; else echo "$name MISSED (rc=$rc)"; fi
